@@ -5,6 +5,8 @@ import XsdataModel.Spec.Xsd
 import XsdataModel.Proofs.IntL
 import XsdataModel.Proofs.Codec
 import XsdataModel.Proofs.SortL
+import XsdataModel.Proofs.QNameL
+import XsdataModel.Proofs.EnumL
 
 namespace Props.C05
 open Py Xs.Conv Xs.Spec
@@ -304,5 +306,299 @@ theorem test_strict_bool_rejects_digits (e : CEnv) (kw : Kw) :
     rw [isSpace_ascii _ _ (by decide)]; decide⟩, ⟨[], '0', rfl, by rw [isSpace_ascii _ _ (by decide)]; decide⟩⟩)
   simp only [test, deserialize, deserializeFrom, deserializeOne, atomDeserialize, boolDeserialize, h1, h0]
   decide
+
+/-! ## xs:QName -/
+
+/-- `QName.text` of a qualified name: `local` or `{uri}local` -/
+def qtext (ns : Option Str) (l : Str) : Str :=
+  match ns with
+  | none => l
+  | some u => '{' :: u ++ '}' :: l
+
+/-- a prefix map as xsdata builds it: a dict (unique keys) whose keys are `None`
+or NCNames -/
+def MapOk (e : CEnv) (m : NsMap) : Prop :=
+  KeysNodup m ∧ ∀ kv ∈ m, kv.1 = none ∨ ∃ p, kv.1 = some p ∧ isNcName e p = true
+
+/-- a QName value: the local part is an NCName, the namespace (if any) a non-empty
+string without `}` -/
+def QNameOk (e : CEnv) (ns : Option Str) (l : Str) : Prop :=
+  isNcName e l = true ∧ ∀ u, ns = some u → u ≠ [] ∧ '}' ∉ u
+
+/-- **Full strength**: every QName written under a prefix map is read back,
+under the (possibly extended) map, as the same QName. -/
+def QNameRoundTrip : Prop :=
+  ∀ (e : CEnv) (ns : Option Str) (l : Str) (m : NsMap), EnvOk e → MapOk e m → QNameOk e ns l →
+    ∃ s m', qnameSerialize (qtext ns l) (some m) = some (s, some m') ∧
+      qnameDeserialize e s (some m') = some (qtext ns l)
+
+/-- the environment that knows ASCII only -/
+def asciiCEnv : CEnv := ⟨Env.ascii, fun _ => false, fun _ => []⟩
+
+theorem asciiCEnv_ok : EnvOk asciiCEnv := by
+  intro c hs
+  simp only [asciiCEnv, Env.isSpace, Env.ascii] at hs
+  by_cases hasc : isAscii c = true
+  · simp only [hasc, if_true] at hs
+    simp only [ncChar, CEnv.isAlpha, Env.isDigit, asciiCEnv, Env.ascii, hasc, if_true]
+    simp only [isAsciiSpace, isAsciiAlpha, isAsciiDigit, Bool.or_eq_true, Bool.and_eq_true,
+      decide_eq_true_eq, Tables.ncnamePunctuation] at *
+    have h95 : c ≠ '_' := by
+      intro h; subst h; revert hs; decide
+    simp [h95]
+    omega
+  · simp [hasc] at hs
+
+/-- **The code violates it**: `QName("y")` (no namespace) written under
+`{None: "urn:x"}` is `"y"`, which is read back as `{urn:x}y`. -/
+theorem qname_default_ns_counterexample : ¬ QNameRoundTrip := by
+  intro h
+  obtain ⟨s, m', h1, h2⟩ := h asciiCEnv none ['y'] [(none, ['u','r','n',':','x'])] asciiCEnv_ok
+    ⟨by unfold KeysNodup; decide, by decide⟩ ⟨by decide, by intro u hu; cases hu⟩
+  have hs : qnameSerialize (qtext none ['y']) (some [(none, ['u','r','n',':','x'])])
+      = some (['y'], some [(none, ['u','r','n',':','x'])]) := by decide
+  rw [hs] at h1
+  injection h1 with h1
+  injection h1 with hs' hm'
+  subst hs'
+  injection hm' with hm'
+  subst hm'
+  revert h2
+  decide
+
+/-- the concrete witness, as the code computes it -/
+theorem qname_default_ns_witness :
+    qnameSerialize ['y'] (some [(none, ['u','r','n',':','x'])]) = some (['y'], some [(none, ['u','r','n',':','x'])]) ∧
+    qnameDeserialize asciiCEnv ['y'] (some [(none, ['u','r','n',':','x'])])
+      = some ['{','u','r','n',':','x','}','y'] := by decide
+
+/-- **Provable part**: the round trip holds for every QName with a namespace, and
+for a QName without namespace whenever the map has no (non-empty) default
+namespace. The prefix map may be extended by a generated prefix (`xs`, `ns3`, …);
+reading uses the extended map, as the serializer does. -/
+theorem qname_rt_partial (e : CEnv) (ns : Option Str) (l : Str) (m : NsMap)
+    (hok : EnvOk e) (hm : MapOk e m) (hq : QNameOk e ns l)
+    (hdef : ns = none → (m.get none).getD [] = []) :
+    ∃ s m', qnameSerialize (qtext ns l) (some m) = some (s, some m') ∧
+      qnameDeserialize e s (some m') = some (qtext ns l) := by
+  obtain ⟨hl, hns⟩ := hq
+  obtain ⟨a, r, hlr, _⟩ := ncName_head e l hl
+  have hab : a ≠ '{' := by
+    intro hx
+    have := (ncName_chars e l hl).2 a (by simp [hlr])
+    rw [hx, brace_not_ncChar e] at this; cases this
+  have hlne : l ≠ [] := (ncName_chars e l hl).1
+  cases ns with
+  | none =>
+    refine ⟨l, m, ?_, ?_⟩
+    · simp only [qtext, qnameSerialize]
+      subst hlr
+      simp [splitQName_nobrace a r hab]
+    · rw [deser_bare e hok l m hl]
+      have hd := hdef rfl
+      by_cases hme : m.isEmpty
+      · simp [hme, qtext]
+      · simp only [hme, qtext]
+        cases hg : m.get none with
+        | none => simp
+        | some u =>
+          simp [hg] at hd
+          simp [hd]
+  | some u =>
+    obtain ⟨hune, hubr⟩ := hns u rfl
+    have hsplit : splitQName (qtext (some u) l) = (some u, l) := by
+      have h1 := textSplit_at '}' u l hubr hlne
+      cases u with
+      | nil => exact absurd rfl hune
+      | cons x xs =>
+        simp only [List.cons_append] at h1
+        simp [qtext, splitQName, h1]
+    have htext : (qtext (some u) l).isEmpty = false := by simp [qtext]
+    unfold qnameSerialize
+    simp only [htext, hsplit]
+    unfold loadPrefix
+    cases hf : m.find? (·.2 = u) with
+    | some pv =>
+      obtain ⟨p, v⟩ := pv
+      have hmem := find_mem m u p v hf
+      have hget := get_of_mem m p u hm.1 hmem
+      have hmne : m.isEmpty = false := by cases m <;> simp_all
+      cases p with
+      | none =>
+        refine ⟨l, m, by simp, ?_⟩
+        rw [deser_bare e hok l m hl]
+        have huE : u.isEmpty = false := by cases u <;> simp_all
+        simp [hmne, hget, qtext, hune]
+      | some p' =>
+        rcases hm.2 _ hmem with h0 | ⟨q, hq1, hq2⟩
+        · cases h0
+        · injection hq1 with hq1
+          subst hq1
+          have hp'ne : p'.isEmpty = false := by
+            have := (ncName_chars e p' hq2).1
+            cases p' <;> simp_all
+          refine ⟨p' ++ ':' :: l, m, by simp [hp'ne], ?_⟩
+          exact deser_prefixed e hok p' l u m (ncName_goodPrefix e hok p' hq2) hl hune hmne hget
+    | none =>
+      have hg := generatePrefix_good e u m
+      have hmap := generatePrefix_map u m
+      obtain ⟨a', r', hpe, _⟩ := hg
+      refine ⟨(generatePrefix u m).1 ++ ':' :: l, (generatePrefix u m).2, ?_, ?_⟩
+      · simp [hpe]
+      · rw [hmap]
+        exact deser_prefixed e hok _ l u _ (generatePrefix_good e u m) hl hune (set_ne_nil _ _ _)
+          (get_set_same _ _ _)
+
+example : MapOk asciiCEnv [(some ['x','s'], ['u','r','n',':','a']), (none, ['u','r','n',':','d'])] ∧
+    QNameOk asciiCEnv (some ['u','r','n',':','b']) ['a','.','b'] := by
+  refine ⟨⟨by unfold KeysNodup; decide, by decide⟩, by decide, ?_⟩
+  intro u hu; injection hu with hu; subst hu; decide
+
+/-! ### QName without prefix map (`{uri}local` notation) -/
+
+/-- **Full strength**: without `ns_map` a QName is written as its `.text` and that text is read back. -/
+def QNameNoMapRoundTrip : Prop :=
+  ∀ (e : CEnv) (ns : Option Str) (l : Str), EnvOk e → QNameOk e ns l →
+    qnameSerialize (qtext ns l) none = some (qtext ns l, none) ∧
+    qnameDeserialize e (qtext ns l) none = some (qtext ns l)
+
+/-- **The code violates it**: `is_uri` knows no `-`, so `{urn:a-b}c` is rejected
+(as is `{http://www.w3.org/2001/XMLSchema-instance}type`). -/
+theorem qname_uri_hyphen_counterexample : ¬ QNameNoMapRoundTrip := by
+  intro h
+  have := (h asciiCEnv (some ['u','r','n',':','a','-','b']) ['c'] asciiCEnv_ok
+    ⟨by decide, by intro u hu; injection hu with hu; subst hu; decide⟩).2
+  revert this
+  decide
+
+/-- the XSI namespace itself is not a URI for `is_uri` -/
+theorem xsi_namespace_not_uri :
+    isUri (some ['h','t','t','p',':','/','/','w','w','w','.','w','3','.','o','r','g','/','2','0','0','1','/',
+      'X','M','L','S','c','h','e','m','a','-','i','n','s','t','a','n','c','e']) = false := by decide
+
+/-- **Provable part**: round trip for every QName whose namespace `is_uri` accepts -/
+theorem qname_nomap_rt_partial (e : CEnv) (ns : Option Str) (l : Str) (hok : EnvOk e)
+    (hq : QNameOk e ns l) (huri : ∀ u, ns = some u → isUri (some u) = true) :
+    qnameSerialize (qtext ns l) none = some (qtext ns l, none) ∧
+    qnameDeserialize e (qtext ns l) none = some (qtext ns l) := by
+  refine ⟨rfl, ?_⟩
+  obtain ⟨hl, hns⟩ := hq
+  obtain ⟨hlne, hlall⟩ := ncName_chars e l hl
+  have hsp' : ¬ ' ' ∈ l := ncName_not_mem e _ hl ' ' (space_not_ncChar e)
+  cases ns with
+  | none =>
+    obtain ⟨a, r, rfl, _⟩ := ncName_head e l hl
+    have hab : a ≠ '{' := by
+      intro hx
+      have := hlall a (by simp)
+      rw [hx, brace_not_ncChar e] at this; cases this
+    have hstrip : e.strip (a :: r) = a :: r := by
+      rw [strip_eq_stripBy]; exact stripBy_tight _ _ (ncName_tight e hok _ hl)
+    have hcolon : ':' ∉ a :: r := ncName_not_mem e _ hl ':' (colon_not_ncChar e)
+    simp only [qtext, qnameDeserialize, qnameResolve, hstrip, hab, if_false,
+      textSplit_absent ':' _ hcolon]
+    simp [hsp', hl]
+  | some u =>
+    obtain ⟨hune, hubr⟩ := hns u rfl
+    have hu := huri u rfl
+    have htight : Tight e.isSpace ('{' :: u ++ '}' :: l) := by
+      right
+      refine ⟨⟨'{', u ++ '}' :: l, rfl, by rw [isSpace_ascii e.toEnv _ (by decide)]; decide⟩, ?_⟩
+      obtain ⟨r', z, hz⟩ := exists_last l hlne
+      exact ⟨'{' :: u ++ '}' :: r', z, by simp [hz], ncChar_not_space e hok z (hlall z (by simp [hz]))⟩
+    have hstrip : e.strip ('{' :: u ++ '}' :: l) = '{' :: u ++ '}' :: l := by
+      rw [strip_eq_stripBy]; exact stripBy_tight _ _ htight
+    have hsplit := textSplit_at '}' u l hubr hlne
+    have hstrip' : e.strip ('{' :: (u ++ '}' :: l)) = '{' :: (u ++ '}' :: l) := by simpa using hstrip
+    simp only [qtext, qnameDeserialize, qnameResolve, List.cons_append, hstrip', if_true, hsplit, hu]
+    simp [hsp', hl, hune]
+
+/-! ## enumerations -/
+
+/-- enum class whose member values are the given strings -/
+def strEnum (vals : List Str) : List EnumVal := vals.map (fun v => .atom (.str v))
+
+/-- enum class whose member values are the given ints -/
+def intEnum (vals : List Int) : List EnumVal := vals.map (fun v => .atom (.int v))
+
+/-- **Full strength**: every member of a string enumeration with distinct values
+is found again from its serialised value. -/
+def EnumStrRoundTrip : Prop :=
+  ∀ (e : CEnv) (vals : List Str) (i : Nat) (h : i < vals.length) (kw : Kw), vals.Nodup →
+    enumSerialize (.atom (.str vals[i])) kw = .ok (vals[i], kw.nsMap) ∧
+    enumDeserialize e (strEnum vals) vals[i] kw = some i
+
+/-- **The code violates it**: a member whose value starts with a blank is not found
+(`deserialize` strips the input first). -/
+theorem enum_str_whitespace_counterexample : ¬ EnumStrRoundTrip := by
+  intro h
+  have := (h asciiCEnv [[' ', 'x']] 0 (by decide) {} (by decide)).2
+  revert this
+  decide
+
+/-- a string value that survives `strip()` and `" ".join(split())` unchanged
+(xs:token-like values) -/
+def Collapsed (e : CEnv) (v : Str) : Prop := e.strip v = v ∧ joinSp (splitWs e.toEnv v) = v
+
+/-- **Provable part**: round trip for members with collapsed values -/
+theorem enum_str_rt_partial (e : CEnv) (vals : List Str) (i : Nat) (h : i < vals.length) (kw : Kw)
+    (hnd : vals.Nodup) (hc : Collapsed e vals[i]) :
+    enumSerialize (.atom (.str vals[i])) kw = .ok (vals[i], kw.nsMap) ∧
+    enumDeserialize e (strEnum vals) vals[i] kw = some i := by
+  refine ⟨rfl, ?_⟩
+  unfold enumDeserialize
+  rw [List.findIdx?_eq_some_iff_getElem]
+  refine ⟨by simpa [strEnum] using h, ?_, ?_⟩
+  · simp [strEnum, enumMatch, hc.1]
+  · intro j hji
+    have hj : j < vals.length := Nat.lt_trans hji h
+    have hne : vals[j] ≠ vals[i] := by
+      intro heq
+      have := (List.getElem_inj hnd).mp heq
+      omega
+    simp [strEnum, enumMatch, hc.1, hc.2, hne]
+
+example : Collapsed asciiCEnv ['a', ' ', 'b'] := by unfold Collapsed; decide
+
+/-- int enumerations: every member is found again from `str(value)` -/
+theorem enum_int_rt (e : CEnv) (vals : List Int) (i : Nat) (h : i < vals.length) (kw : Kw)
+    (hnd : vals.Nodup) :
+    enumSerialize (.atom (.int vals[i])) kw = .ok (intSerialize vals[i], kw.nsMap) ∧
+    enumDeserialize e (intEnum vals) (intSerialize vals[i]) kw = some i := by
+  refine ⟨rfl, ?_⟩
+  have hstrip := intStr_strip e.toEnv vals[i]
+  have hsplit := splitWs_token e.toEnv (intStr vals[i]) (intStr_ne_nil _) (intStr_nospace e.toEnv _)
+  have hrt := int_rt e.toEnv vals[i]
+  unfold enumDeserialize intSerialize
+  simp only [hstrip, hsplit]
+  rw [List.findIdx?_eq_some_iff_getElem]
+  refine ⟨by simpa [intEnum] using h, ?_, ?_⟩
+  · simp [intEnum, enumMatch, matchAtomic, Atom.ty, atomDeserialize]
+    unfold intSerialize at hrt
+    simp [hrt]
+  · intro j hji
+    have hj : j < vals.length := Nat.lt_trans hji h
+    have hne : vals[i] ≠ vals[j] := by
+      intro heq
+      have := (List.getElem_inj hnd).mp heq
+      omega
+    unfold intSerialize at hrt
+    simp [intEnum, enumMatch, matchAtomic, Atom.ty, atomDeserialize, hrt, hne]
+
+/-- token-list enumerations: `deserialize` finds the member, `serialize` has no
+converter for the tuple value (**defect**, see `enum_tuple_counterexample`) -/
+def EnumTupleRoundTrip : Prop :=
+  ∀ (e : CEnv) (toks : List Str) (kw : Kw), (∀ t ∈ toks, isNcName e t = true) →
+    ∃ s m, enumSerialize (.tuple (toks.map .str)) kw = .ok (s, m) ∧
+      enumDeserialize e [.tuple (toks.map .str)] s kw = some 0
+
+theorem enum_tuple_counterexample : ¬ EnumTupleRoundTrip := by
+  intro h
+  obtain ⟨s, m, h1, _⟩ := h asciiCEnv [['a'], ['b']] {} (by decide)
+  simp [enumSerialize] at h1
+
+/-- the reading direction does work on the witness -/
+theorem enum_tuple_reads :
+    enumDeserialize asciiCEnv [.tuple [.str ['a'], .str ['b']]] ['a', ' ', 'b'] {} = some 0 := by decide
 
 end Props.C05
